@@ -264,10 +264,10 @@ async fn check_async(case: &Case, obs: &mut Obs) -> Result<(), Fail> {
             other => vfail!("c19:unexpected-status", "request {} ended with status {:?}", o.id, other),
         }
     }
-    // a zero hint can legitimately happen when the quota replenishes within the nanoseconds
-    // between the limiter's decision and its clock reading; it must be rare
+    // the hint is positive (F7: before /repo 1ab4be0 it could be 0 when the next cell freed up between
+    // the limiter's decision and the clock reading the hint was computed from)
     let refusals = outcomes.iter().filter(|o| o.status == Some(429)).count();
-    vensure!(zero_hints <= 1 || zero_hints * 10 <= refusals, "c19:zero-hint", "{zero_hints} of {refusals} refusals carried wait-nanos 0 (the hint must be positive)");
+    vensure!(zero_hints == 0, "c19:zero-hint", "{zero_hints} of {refusals} refusals carried wait-nanos 0 (the hint must be positive)");
 
     // GCRA envelope per peer: admissions certainly inside [a,b] <= burst + (b-a)/period + 1
     let mut per_peer: BTreeMap<u8, Vec<(Instant, Instant)>> = BTreeMap::new();
@@ -310,7 +310,7 @@ impl Part for Histories {
     type Case = Case;
     fn name(&self) -> &'static str { "histories" }
     fn rule(&self) -> &'static str {
-        "quotas with period 2-50 ms and burst 1-8, 1-4 peers, both wait modes, two services from one layer; scripts of back-to-back/concurrent bursts, sleeps, fresh-peer probes and hint probes run in REAL time; each admission bracketed [before call, inside service]; oracle: per-peer GCRA envelope over every window, refusals never reach the service and carry parseable wait-nanos <= 2 periods (zero only as a rare clock race), waiting the hinted time suffices, first `burst` requests of every peer admitted, fresh peers unaffected by exhausted ones, Block mode admits everything, and (Block, period >= 15 ms) of two peers blocked at once the one with the short queue is served on its own schedule, before the other's queue has drained (ordering oracle); non-trivial = demand exceeded the quota (refusal or blocked wait) with >=2 peers active; distinct by script"
+        "quotas with period 2-50 ms and burst 1-8, 1-4 peers, both wait modes, two services from one layer; scripts of back-to-back/concurrent bursts, sleeps, fresh-peer probes and hint probes run in REAL time; each admission bracketed [before call, inside service]; oracle: per-peer GCRA envelope over every window, refusals never reach the service and carry a parseable wait-nanos in 1 ns ..= 2 periods, waiting the hinted time suffices, first `burst` requests of every peer admitted, fresh peers unaffected by exhausted ones, Block mode admits everything, and (Block, period >= 15 ms) of two peers blocked at once the one with the short queue is served on its own schedule, before the other's queue has drained (ordering oracle); non-trivial = demand exceeded the quota (refusal or blocked wait) with >=2 peers active; distinct by script"
     }
     fn deterministic(&self) -> bool { false }
     fn strategy(&self, _t: Tier) -> BoxedStrategy<Case> {
@@ -328,10 +328,61 @@ impl Part for Histories {
     fn run(&self, c: &Case, obs: &mut Obs) -> Result<(), Fail> { check(c, obs) }
 }
 
+// ---------------------------------------------------------------- the hint of a refusal is positive
+
+#[derive(Clone, Debug, Serialize, Deserialize, PartialEq, Eq, Hash)]
+pub struct HintCase {
+    pub period_us: u16,
+    pub burst: u8,
+    /// requests sent back to back
+    pub n: u32,
+    /// competing busy threads (preemption between the limiter's decision and the hint's clock reading)
+    pub noise_threads: u8,
+}
+
+pub struct HintRace;
+impl Part for HintRace {
+    type Case = HintCase;
+    fn name(&self) -> &'static str { "hint-race" }
+    fn deterministic(&self) -> bool { false }
+    fn rule(&self) -> &'static str {
+        "ReturnError mode, quotas replenishing every 30-800 us, one peer sending 20 000-80 000 requests back to back in REAL time (optionally with busy threads competing for the cores), so that refusals happen arbitrarily close to the instant the next cell frees up; oracle: every refusal carries wait-nanos >= 1 (a 0 tells the refused caller that no wait is needed); non-trivial = case with >= 1000 refusals; distinct by case"
+    }
+    fn strategy(&self, _t: Tier) -> BoxedStrategy<HintCase> {
+        (30u16..800, 1u8..4, 20_000u32..80_000, 0u8..3).prop_map(|(period_us, burst, n, noise_threads)| HintCase { period_us, burst, n, noise_threads }).boxed()
+    }
+    fn run(&self, c: &HintCase, obs: &mut Obs) -> Result<(), Fail> {
+        let quota = governor::Quota::with_period(Duration::from_micros(c.period_us.max(1) as u64)).unwrap().allow_burst(NonZeroU32::new(c.burst.max(1) as u32).unwrap());
+        let shared = Arc::new(Mutex::new(Shared::default()));
+        let svc = RateLimitLayer::new(quota, WaitMode::ReturnError).layer(Inner(shared.clone()));
+        let stop = Arc::new(std::sync::atomic::AtomicBool::new(false));
+        let noise: Vec<_> = (0..c.noise_threads).map(|_| { let stop = stop.clone(); std::thread::spawn(move || { let mut x = 0u64; while !stop.load(std::sync::atomic::Ordering::Relaxed) { x = x.wrapping_mul(6364136223846793005).wrapping_add(1); std::hint::black_box(x); } }) }).collect();
+        let rt = tokio::runtime::Builder::new_current_thread().enable_time().build().unwrap();
+        let (refusals, zeros) = rt.block_on(async {
+            let (mut refusals, mut zeros) = (0u32, 0u32);
+            for i in 0..c.n {
+                let req = Request::new(Bytes::new()).with_header("id", i.to_string()).with_extension(pid(0, 0));
+                if let Err(s) = svc.clone().oneshot(req).await {
+                    refusals += 1;
+                    if s.headers().get(WAIT_NANOS_HEADER).map(|v| v.as_str()) == Some("0") { zeros += 1; }
+                }
+            }
+            (refusals, zeros)
+        });
+        stop.store(true, std::sync::atomic::Ordering::Relaxed);
+        for t in noise { let _ = t.join(); }
+        obs.evals(c.n as u64);
+        vensure!(zeros == 0, "c19:zero-hint", "{zeros} of {refusals} refusals (period {} us, burst {}) carried wait-nanos 0: the refused caller is told that no wait is needed", c.period_us, c.burst);
+        if refusals >= 1000 { obs.nontrivial(c); }
+        Ok(())
+    }
+}
+
 pub fn run(tier: Tier) -> i32 {
     let mut ctx = Ctx::new("C19", tier);
     ctx.assume("governor's DefaultClock is real monotonic time and not injectable: cases run in real time; brackets make the envelope check conservative under scheduling noise");
     ctx.assume("not a pure function of the seed: a replay re-runs the saved script several times and reports the hit rate");
     ctx.run_part(Histories, tier.pick(600, 12_000));
+    ctx.run_part_threads(HintRace, tier.pick(48, 1_500), 8);
     ctx.finish()
 }
